@@ -139,9 +139,8 @@ ReadUnsigned(s) ==
               ip  == IF pd > 0 THEN Take(man, pd - 1) ELSE man
               fp  == IF pd > 0 THEN Drop(man, pd) ELSE <<>>
           IN IF ~AllDigits(ip) \/ (pd > 0 /\ ~AllDigits(fp)) \/ ~IsIntText(ex) THEN Bad
-             ELSE LET m == Norm(NatVal(ip \o fp), 10^Len(fp))
-                      e == IntVal(ex)
-                  IN Good(IF e >= 0 THEN RMul(m, R(10^e)) ELSE RDiv(m, R(10^(-e))))
+             ELSE LET kk == IntVal(ex) - Len(fp)              \* digits * 10^kk
+                  IN Good(IF kk >= 0 THEN R(NatVal(ip \o fp) * 10^kk) ELSE Norm(NatVal(ip \o fp), 10^(-kk)))
 ReadNum(s) == IF s = <<>> THEN Bad
               ELSE IF s[1] = "-" THEN LET r == ReadUnsigned(Tail(s)) IN [ok |-> r.ok, v |-> RNeg(r.v)]
               ELSE ReadUnsigned(s)
